@@ -26,7 +26,8 @@ def parse_obs(s):
 def check(prop, tier, seed, replay=None):
     rep = C.Report(prop, tier, seed); audit = C.proof_audit(prop); rnd = random.Random(seed)
     thorough = tier == 'thorough'
-    configs = ['gcc20-ubsan'] if not thorough else ['gcc20-ubsan', 'clang20-ubsan', 'gcc17-ubsan']
+    # the last configuration enables assertions and the library's _MDSPAN_DEBUG precondition checks: valid inputs must not trip them
+    configs = (['gcc20-ubsan'] if not thorough else ['gcc20-ubsan', 'clang20-ubsan', 'gcc17-ubsan']) + ['gcc23-O0-assert-mdspandebug']
     rep.cov['rule'] = ('all 2^r static/dynamic patterns for rank<=3 (static values in every position; rank 4 for two index types) x 8 index types x 3 source element types x 6 construction paths '
                        '(pack/array/span x dynamic-only/all values); 420 ordered pairs of extents types for conversion and comparison; values small, at the top of the types, and (tie only) not representable; '
                        'non-trivial = rank>=1 and all values representable; distinct by op line')
@@ -80,8 +81,27 @@ def check(prop, tier, seed, replay=None):
         except C.BuildError as e:
             rep.broke(dict(correspondence='ext op server build (%s)' % cfg, why=str(e), log=e.log[-3000:])); continue
         rep.notes.setdefault('server_build_s', {})[cfg] = round(secs, 1)
-        iout = [canon(x) for x in C.pipe(exe, lines)]
+        partial = C.report_dropped(rep, exe, 'ext op server', cfg)
+        if 'mdspandebug' in cfg:
+            # debug configuration: only lines whose values satisfy every precondition (a tripped check ends the process)
+            def valid(c):
+                line, fam, meta = c
+                if not meta: return False
+                if fam == 'ctor': return meta['adm']
+                (t, pt), (u, pu) = meta['pair']
+                if fam == 'conv': return all(0 <= v <= min(C.hi(t), C.hi(u)) for v in meta['vals'])
+                return all(0 <= v <= C.hi(t) for v in meta['a']) and all(0 <= v <= C.hi(u) for v in meta['b'])
+            sel = [k for k, c in enumerate(cases) if valid(c)]
+            out = C.pipe(exe, [lines[k] for k in sel]); iout = ['skip'] * len(lines)
+            for k, x in zip(sel, out): iout[k] = canon(x)
+            died = next((k for k in sel if iout[k].startswith('died')), None)
+            if died is not None:
+                rep.violation(dict(kind='valid-input-trips-a-debug-check-or-crashes (assertions + _MDSPAN_DEBUG)', line=lines[died], fam=cases[died][1], meta=cases[died][2], impl=iout[died], config=cfg))
+                for k in sel:
+                    if iout[k].startswith('died'): iout[k] = 'skip'
+        else: iout = [canon(x) for x in C.pipe(exe, lines)]
         for (line, fam, meta), xi, xm in zip(cases, iout, mout):
+            if xi == 'skip' or (partial and xi == 'no-inst'): continue
             rep.cov['evaluations'] += 1; rep.cov['traces_validated_against_impl'] += 1
             pub = dict(line=line, fam=fam, meta=meta, config=cfg)
             if xi == 'no-inst' and xm == 'no-inst': continue
